@@ -105,6 +105,9 @@ func main() {
 // ---------- (i) handler sweep ----------
 
 func handlerSweep(run *ev.Run, dir string) {
+	// the real binary (where the outbound client and --http_timeout are built) against stalled response bodies
+	run.Floor("binary_stalled_body_sessions", 4)
+	run.Units("binary_stall", run.Pick(4, 16), 4, func(unit int64, r *rand.Rand) { binaryStall(run, unit, r, dir) })
 	run.Units("handler", run.Pick(64, 640), 0, func(unit int64, r *rand.Rand) {
 		u := gen.NewUniverse(r, gen.Opts{NLogs: 2, MaxSize: 30, Branches: 2, ShareKeys: true})
 		st, _ := wit.NewStore(wit.DrawStore(r), dir)
